@@ -108,6 +108,7 @@ class Hist:
         self.fails: List[tuple] = []
         self.reads_after_mutation = 0
         self.dirty = False
+        self.broken: Optional[dict] = None  # an op on which pyhap raised unexpectedly
 
     def fail(self, sig, desc):
         if not any(s == sig for s, _ in self.fails):
@@ -169,12 +170,26 @@ class Hist:
             snap[rig.num(c)] = (copy.deepcopy(meta), copy.deepcopy(c.value))
         return snap
 
+    def guarded(self, op: dict):
+        """Run one op; an exception coming out of pyhap is an observation (recorded, the history
+        stops there), anything else is a harness bug and propagates."""
+        n_ops, n_lines, n_outs = len(self.ops), len(self.lines), len(self.outs)
+        try:
+            self._apply(op)
+        except Exception as ex:  # noqa: BLE001
+            if not dbrig.from_pyhap(ex):
+                raise
+            del self.ops[n_ops:], self.lines[n_lines:], self.outs[n_outs:]
+            self.broken = {"op": op, "raised": type(ex).__name__, "message": str(ex)[:200]}
+
     def apply(self, op: dict):
+        if self.broken is not None:
+            return
         k = op["op"]
         if k in ("set_value", "client_write", "override", "display_name", "getter"):
             target = self.rig.objs[op["obj"]]
             before = self.others_snapshot(target)
-            self._apply(op)
+            self.guarded(op)
             after = self.others_snapshot(target)
             for n, (meta, val) in before.items():
                 meta2, val2 = after.get(n, (None, None))
@@ -187,7 +202,7 @@ class Hist:
                     )
                     break
         else:
-            self._apply(op)
+            self.guarded(op)
 
     def _apply(self, op: dict):
         self.ops.append(op)
@@ -276,7 +291,7 @@ class Hist:
         self.lines.append({"op": "readAll", "incl": incl, "g": g})
         try:
             want = ref.render_db(rig.top, incl, rig.loader_names)
-        except ref.Raises:
+        except Exception:  # noqa: BLE001 - a getter raises / the state cannot be rendered at all
             want = None
         if op.get("via") == "handler" and incl:
             status, doc = rig.http("GET", "/accessories")
@@ -314,7 +329,10 @@ class Hist:
             if isinstance(obj, Characteristic) and obj.getter_callback:
                 g.append([pos, getter_outcome(obj)])
         self.lines.append({"op": "readChars", "ids": [list(p) for p in ids], "g": g})
-        want = ref.expected_read(rig.top, ids)
+        try:
+            want = ref.expected_read(rig.top, ids)
+        except Exception:  # noqa: BLE001 - the state cannot be walked: nothing to demand
+            want = None
         status, doc = rig.http("GET", "/characteristics?id=" + ",".join(f"{a}.{i}" for a, i in ids))
         if self.dirty:
             self.reads_after_mutation += 1
@@ -322,6 +340,8 @@ class Hist:
         if status not in (200, 207) or not isinstance(entries, list):
             self.fail("C11:characteristics-read-failed", f"GET /characteristics for {ids} answered {status}")
             return {"code": status, "characteristics": None}
+        if want is None:
+            return {"code": status, "characteristics": canon(entries)}
         # entries for ids of existing accessories (anything the server adds for unknown accessories is not judged)
         known = {a for a, _ in ((w["aid"], 0) for w in want)}
         judged = [e for e in entries if e.get("aid") in known]
@@ -643,18 +663,28 @@ def judge(ctx: Ctx, h: Hist):
         ctx.fail(sig, desc, minimise(h, sig))
 
 
+def safe_history(ctx: Ctx, pool, program=None) -> Optional[Hist]:
+    """A generated history; None (plus a recorded disagreement) if pyhap cannot even build the
+    configuration from the shipped definitions."""
+    try:
+        h = gen_history(ctx, pool, program=program)
+    except Exception as ex:  # noqa: BLE001
+        if not dbrig.from_pyhap(ex):
+            raise
+        ctx.disagree("c11-construction", {"program": program}, "configuration is built", f"pyhap raised {type(ex).__name__}: {str(ex)[:160]}")
+        return None
+    h.rig.close()
+    return h
+
+
 def generate(ctx: Ctx, pool, n_random: int) -> List[Hist]:
     hs = []
     for prog in BOUNDARY_PROGRAMS:
         for _ in range(ctx.n(3, 12)):
-            h = gen_history(ctx, pool, program=prog)
-            h.rig.close()
-            hs.append(h)
+            hs.append(safe_history(ctx, pool, program=prog))
     for _ in range(n_random):
-        h = gen_history(ctx, pool)
-        h.rig.close()
-        hs.append(h)
-    return hs
+        hs.append(safe_history(ctx, pool))
+    return [h for h in hs if h is not None]
 
 
 def run(ctx: Ctx):
@@ -675,6 +705,13 @@ def run(ctx: Ctx):
     for h, m in zip(hs, model):
         judge(ctx, h)
         st.traces_validated += 1
+        if h.broken is not None:
+            st.hit("outcome", "op-raised:" + h.broken["raised"])
+            ctx.disagree(
+                "c11-op-raised", {"cfg": h.cfg, "ops": h.ops + [h.broken["op"]]},
+                "the operation completes (or fails with its documented error)",
+                f"pyhap raised {h.broken['raised']}: {h.broken['message']}",
+            )
         st.case([h.cfg, h.ops], h.reads_after_mutation > 0)
         for op, out in zip(h.ops, h.outs):
             st.hit("op", op["op"] + (":no-value" if op["op"] == "read_all" and not op["incl"] else ""))
@@ -696,7 +733,7 @@ def run(ctx: Ctx):
                     _short(io if not isinstance(io, dict) or "accessories" not in io else "(see hint)"),
                 )
                 break
-    for i in (0, len(BOUNDARY_PROGRAMS) * ctx.n(3, 12), len(hs) - 1):
+    for i in sorted({0, min(len(BOUNDARY_PROGRAMS) * ctx.n(3, 12), len(hs) - 1), len(hs) - 1} if hs else set()):
         h, m = hs[i], model[i]
         st.sample(
             {
@@ -734,8 +771,9 @@ def search(ctx: Ctx):
 
     pool = dbrig.spec_pool(Loader())
     for i in range(1500):
-        h = gen_history(ctx, pool, program=BOUNDARY_PROGRAMS[i % len(BOUNDARY_PROGRAMS)] if i % 4 == 0 else None)
-        h.rig.close()
+        h = safe_history(ctx, pool, program=BOUNDARY_PROGRAMS[i % len(BOUNDARY_PROGRAMS)] if i % 4 == 0 else None)
+        if h is None:
+            continue
         judge(ctx, h)
         if ctx.failures and i > 300:
             break
@@ -746,6 +784,8 @@ def replay(ctx: Ctx, r):
     print("configuration:", json.dumps(r["cfg"])[:400])
     for op, out in zip(h.ops, h.outs):
         print("  ", json.dumps(op)[:160], "->", _short(out, 200) if out is not None else "")
+    if h.broken is not None:
+        print("pyhap raised", h.broken["raised"], "on", json.dumps(h.broken["op"])[:160], "-", h.broken["message"])
     for sig, desc in h.fails:
         print("FAILS:", sig, desc)
     print("verdict:", "property violated on this input" if h.fails else "holds on this input")
